@@ -400,11 +400,12 @@ def run(prop, tier):
     quick = tier == "quick"
     r = C.rng(prop)
     tie = tie_tables()
-    proof["tie_obligations"] = tie["obligations"]
-    if not tie["ok"]:
-        proof["undischarged"] = tie["obligations"]
+    from ..py2coq import misctie
+    tie_f = misctie.tie_group("fmt")
+    proof["tie_obligations"] = tie["obligations"] + tie_f["obligations"]
+    proof["undischarged"] = ([] if tie["ok"] else tie["obligations"]) + ([] if tie_f["ok"] else tie_f["obligations"])
     proof["trusted"] = [
-        "formatter model Cli/Format.v written by hand from util.make_duration_formatter, tied by correspondence (directed + random durations and templates); binary64 via Flocq",
+        "formatter model Cli/Format.v written by hand from util.make_duration_formatter; the field arithmetic (int(seconds*1000) and the divmod chain) is translated from /repo on every run and proved equal to millis + fields (TieFmt.v); template handling and %S rendering are tied by correspondence (directed + random durations and templates); binary64 via Flocq",
         "option / keyword tables: AST extraction harness/py2coq/cli.py (fail-closed) compared with Cli/Options.v by reflexivity in CliTie.v on every run; argparse itself is trusted",
         "end-to-end runs of auditok.cmdline.main in-process (time module of cmdline replaced by a fast clock, sys.stdin replaced); {timestamp}, -E/-p/-C/-I/-F/-B not exercised (no audio device / matplotlib here)",
         "extraction (ExtrOcamlBasic only) + OCaml driver, cross-checked by vm_compute on a sample",
@@ -587,14 +588,16 @@ def run(prop, tier):
                 "plus -q, -o, -O, -O -j, -j alone; non-trivial = distinct (format, duration) pairs + distinct templates + printed detection lines compared" % (len(xs), len(tcases), len(e2e)),
         "samples": [{"time_format": fmeta[5][0], "seconds": fmeta[5][1], "model": "".join(map(chr, fout[5][1])) if fout[5][0] == 0 else fout[5]}] +
                    ([{"argv": obs[cases[0]["idx"]]["argv"], "stdout": obs[cases[0]["idx"]]["stdout"][:300]}] if e2e else []),
-        "vm_compute_crosschecked": vm_n, "tie_tables": tie["detail"][:300], "correspondence_mismatches": len(mism),
+        "vm_compute_crosschecked": vm_n, "tie_tables": tie["detail"][:300], "tie_translation": tie_f["detail"][:300], "correspondence_mismatches": len(mism),
     })
     if violation:
         res.add_violation(violation["what"], violation)
-    elif not tie["ok"] or mism:
+    elif not tie["ok"] or not tie_f["ok"] or mism:
         what = []
         if not tie["ok"]:
             what.append("table tie broken: " + tie["detail"][:500])
+        if not tie_f["ok"]:
+            what.append("translation tie broken: " + tie_f["detail"][:500])
         if mism:
             what.append("correspondence model/implementation differs: %r" % (mism[0],))
         res.add_violation("; ".join(what)[:1500] + " -- the statement's clauses found no failing input",
